@@ -122,7 +122,7 @@ def _native_order_work(i):
 
 
 # ---- spec/NativeOrder.tla: when native output values become text ---------------------------------
-# TLC enumerates every statement sequence (text / {{ L }} / L.append / {{ bad }} / raising expression / {{ self.b() }}),
+# TLC enumerates every statement sequence (text / {{ L }} / L.append / {{ bad }} / raising expression / {{ self.b() }} or {{ m() }}),
 # runs the sync and the async renderer of the model step by step (Pull / Convert / Finish) and prints the result of both;
 # each program is rendered by the real NativeEnvironment in the three cells and compared with the model's result.
 ORDER_OPS = {"txt": "x", "ref": "{{ L }}", "push": "{% set _ = L.append(1) %}", "bad": "{{ bad }}", "div": "{{ 1 // z }}",
@@ -143,12 +143,19 @@ INVARIANT C09_ActionsMatchFunction
 
 
 def order_sources(o):
-    main = "".join(ORDER_OPS[x] for x in o["main"])
-    body = "".join(ORDER_OPS[x] for x in o["body"])
+    via = o.get("via", "block")
+    ops = dict(ORDER_OPS, call="{{ m() }}" if via == "macro" else "{{ self.b() }}")
+    main = "".join(ops[x] for x in o["main"])
+    body = "".join(ops[x] for x in o["body"])
     shapes = []
     if "call" not in o["main"]:
         shapes.append(("top-level", {"main": main}))
         shapes.append(("block", {"main": "{% block main %}" + main + "{% endblock %}"}))
+    elif via == "macro":
+        mac = "{% macro m() %}" + body + "{% endmacro %}"
+        shapes.append(("top-level+macro", {"main": mac + main}))
+        shapes.append(("block+macro", {"main": mac + "{% block main %}" + main + "{% endblock %}"}))
+        return shapes
     shapes.append(("child", {"main": "{% extends 'base' %}{% block main %}" + main + "{% endblock %}{% block b %}" + body + "{% endblock %}",
                              "base": "{% block main %}{% endblock %}"}))
     return shapes
